@@ -240,9 +240,24 @@ func closedCallers(c *core.Ctx, key string, allowed []string, targets ...*types.
 	for _, a := range allowed {
 		allow[a] = true
 	}
-	names, sites := callersOf(c, targets...)
+	_, sites := callersOf(c, targets...)
+	seen := map[string]bool{}
+	var names []string
+	okBy := map[string]bool{}
+	for _, s := range sites {
+		n := core.FuncName(core.Outer(s.Caller))
+		if seen[n] {
+			continue
+		}
+		seen[n] = true
+		names = append(names, n)
+		// a private helper all of whose callers are permitted callers (recursively) counts as its callers: extracting a function does
+		// not widen who can reach the target
+		okBy[n] = allow[n] || ownedBy(c, s.Caller, allow, 0)
+	}
+	sort.Strings(names)
 	for _, n := range names {
-		c.Check(key+"@"+n, "who-may-call", allow[n], token.NoPos, "caller %s of %s is not in the frozen set of permitted callers", n, key)
+		c.Check(key+"@"+n, "who-may-call", okBy[n], token.NoPos, "caller %s of %s is not in the frozen set of permitted callers (nor a private helper reached only from them)", n, key)
 	}
 	return sites
 }
